@@ -22,6 +22,9 @@ import (
 	"time"
 
 	"github.com/cometbft/cometbft/abci/types"
+	"github.com/spf13/viper"
+
+	cmdFlags "github.com/oasisprotocol/oasis-core/go/oasis-node/cmd/common/flags"
 
 	"verifharness/internal/coqout"
 	"verifharness/internal/muxdrv"
@@ -122,7 +125,7 @@ type twin struct {
 	bg   int64
 }
 
-func startTwin(seed uint64, tie, rts, upg bool, idx int, bg bool, name string) (*twin, error) {
+func startTwin(seed uint64, tie, rts, upg bool, idx int, bg bool, name string, extra ...string) (*twin, error) {
 	exe, err := os.Executable()
 	if err != nil {
 		return nil, err
@@ -140,6 +143,7 @@ func startTwin(seed uint64, tie, rts, upg bool, idx int, bg bool, name string) (
 	if !bg {
 		args = append(args, "-nobg")
 	}
+	args = append(args, extra...)
 	cmd := exec.Command(exe, args...)
 	cmd.Stderr = os.Stderr
 	stdin, err := cmd.StdinPipe()
@@ -307,7 +311,7 @@ func (c *c01Run) twinDumps() error {
 
 // ---------- child side ----------
 
-func replicaMain(seed uint64, tie, rts, upg bool, idx int, bg bool) {
+func replicaMain(seed uint64, tie, rts, upg bool, idx int, bg bool, noDebugFlag bool) {
 	out := json.NewEncoder(os.Stdout)
 	dec := json.NewDecoder(bufio.NewReaderSize(os.Stdin, 1<<20))
 	c := &c01Run{seed: seed, tie: tie, upg: upg, bg: bg, sum: coqout.NewSummary("child")}
@@ -321,6 +325,10 @@ func replicaMain(seed uint64, tie, rts, upg bool, idx int, bg bool) {
 		return
 	}
 	c.g = g
+	if noDebugFlag {
+		// run this replica WITHOUT the process-wide unsafe debug flag (debug.dont_blame_oasis)
+		viper.Set(cmdFlags.CfgDebugDontBlameOasis, false)
+	}
 	cfg := c.configs()[idx]
 	rp, err := muxdrv.NewReplica(g, cfg)
 	if err != nil {
@@ -400,4 +408,61 @@ func replicaMain(seed uint64, tie, rts, upg bool, idx int, bg bool) {
 	}
 	close(stop)
 	wg.Wait()
+}
+
+// debugFlagProbe documents, on the real code, what the class UnsafeDebugFlag of the site
+// enumeration means: the SAME block is executed by a replica running with the process-wide
+// unsafe flag debug.dont_blame_oasis (this process) and by one running without it (a child
+// process). The block registers a runtime whose storage checkpoint interval is below the
+// production minimum; registry/api/runtime.go StorageParameters.ValidateBasic skips that
+// check when the flag is set. Informational only (the flag must never be set in production);
+// recorded in summary.extra.debug_flag_probe.
+func debugFlagProbe(seed uint64, sum *coqout.Summary) {
+	g, err := muxdrv.NewGenesis(seed, c01GenesisOpts(seed, false))
+	if err != nil {
+		return
+	}
+	c := &c01Run{seed: seed, g: g, sum: coqout.NewSummary("probe")}
+	cfg := c.configs()[0]
+	rp, err := muxdrv.NewReplica(g, cfg)
+	if err != nil {
+		return
+	}
+	defer rp.Close()
+	tw, err := startTwin(seed, false, false, false, 0, false, cfg.Name, "-nodebugflag")
+	if err != nil {
+		sum.Extra["debug_flag_probe"] = "child without the flag did not boot: " + err.Error()
+		return
+	}
+	defer tw.close()
+	v0 := g.Validators[0]
+	rt := muxdrv.RuntimeDescriptor(muxdrv.RuntimeID(seed, "probe"), v0.Entity.Public())
+	rt.Storage.CheckpointInterval, rt.Storage.CheckpointNumKept, rt.Storage.CheckpointChunkSize = 5, 1, 1024
+	tx := muxdrv.Sign(v0.Entity, muxdrv.TxRegisterRuntime(0, muxdrv.Fee(10, 4*muxdrv.DefaultGas), rt))
+	chain := muxdrv.NewChain(g)
+	in := chain.NewBlock(v0.ConsAddr, muxdrv.VotesAll, nil)
+	list, err := rp.Propose(in, [][]byte{tx})
+	if err != nil || len(list) == 0 {
+		return
+	}
+	res, err := rp.Process(in, list)
+	if err != nil {
+		return
+	}
+	out := map[string]any{"tx": "registry.RegisterRuntime with storage checkpoint_interval=5",
+		"with_flag": fmt.Sprintf("code %d %s, app hash %s", res.TxResults[0].Code, res.TxResults[0].Log, hex.EncodeToString(res.AppHash)[:16])}
+	r, terr := tw.call(&wireReq{Op: "replay", In: toWire(in), Txs: list})
+	switch {
+	case terr != nil:
+		out["without_flag"] = "child failed: " + terr.Error()
+	case r.Err != "":
+		e := r.Err
+		if len(e) > 200 {
+			e = e[:200]
+		}
+		out["without_flag"] = "rejects the block: " + e
+	default:
+		out["without_flag"] = fmt.Sprintf("code %d %s, app hash %s", r.Res.TxResults[0].Code, r.Res.TxResults[0].Log, hex.EncodeToString(r.Res.AppHash)[:16])
+	}
+	sum.Extra["debug_flag_probe"] = out
 }
